@@ -24,6 +24,10 @@ REVS = {1: '200101010000Z', 2: '200201010000Z', 3: '200301010000Z'}
 def mib_text(mod, rev, ident, variant=0):
     if mod == '-':
         return '-- id %d\nNOT-A-MIB DEFINITIONS ::= BEGIN ::= ::= END\n' % ident
+    if not rev and variant % 2 == 0:
+        # "no revision" has two spellings: a MODULE-IDENTITY without REVISION clause (below) and, here, no MODULE-IDENTITY at all
+        return ('-- id %d\n%s DEFINITIONS ::= BEGIN\nIMPORTS enterprises FROM SNMPv2-SMI;\ntheId OBJECT IDENTIFIER ::= { enterprises %d }\nEND\n'
+                % (ident, mod, 4800 + ident))
     t = '-- id %d\n%s DEFINITIONS ::= BEGIN\nIMPORTS enterprises, MODULE-IDENTITY FROM SNMPv2-SMI;\n' % (ident, mod)
     t += 'theId MODULE-IDENTITY LAST-UPDATED "200401010000Z" ORGANIZATION "o" CONTACT-INFO "c" DESCRIPTION "copy %d"\n' % ident
     if rev:
